@@ -2330,21 +2330,27 @@ evutil_inet_pton(int af, const char *src, void *dst)
 			if (i > 7)
 				return 0;
 			if (EVUTIL_ISXDIGIT_(*src)) {
-				char *next;
-				long r = strtol(src, &next, 16);
-				if (next > 4+src)
-					return 0;
-				if (next == src)
-					return 0;
-				if (r<0 || r>65536)
-					return 0;
+				/* A group is one to four hex digits.  (strtol() would
+				 * also take a "0x" prefix.) */
+				unsigned r = 0;
+				int n = 0;
+				while (EVUTIL_ISXDIGIT_(*src)) {
+					if (++n > 4)
+						return 0;
+					r = (r << 4) | (unsigned)evutil_hex_char_to_int_(*src++);
+				}
 
 				words[i++] = (ev_uint16_t)r;
 				setWords++;
-				src = next;
-				if (*src != ':' && src != eow)
+				if (src == eow)
+					break;
+				if (*src != ':')
 					return 0;
 				++src;
+				/* A single ':' has to be followed by another group or by
+				 * the embedded IPv4 address, not by the end of the string. */
+				if (src == eow && !dot)
+					return 0;
 			} else if (*src == ':' && i > 0 && gapPos==-1) {
 				gapPos = i;
 				++src;
